@@ -41,7 +41,7 @@ QUICK_SHAPES = [
     "known-c02", "nullable-chain", "nullable-start", "nullable-mid", "nullable-end", "two-nullables", "lr2",
     "lr1-not-lalr", "dangling-else", "lex-a-aa", "lex-a-ab-b", "lex-prefix", "expr", "paren", "list-sep",
     "opt-list", "rr-conflict", "palindrome", "g7", "right-nullable", "bounded-amb", "reduce-many-empty",
-    "hidden-left-2", "g8",
+    "hidden-left-2", "g8", "lex-alt", "nullable-tails", "glr-revisit",
 ]
 
 
@@ -54,6 +54,7 @@ def universe():
     out = [(g, 5) for g in acyclic(corpus.shapes())]
     out += [(g, 5) for g in acyclic(corpus.gf_tiny(3))]
     out += [(g, 4) for g in tiny4()]
+    out += [(g, 4) for g in acyclic(corpus.tiny3x3_fixed())]
     return out
 
 
@@ -79,6 +80,8 @@ def cases(tier, seed):
         for g in corpus.stratified(acyclic(corpus.gf_tiny(3)), 100, seed):
             out.append(_case(g, "SLR", 4))
         for g in tiny4():
+            out.append(_case(g, "LALR", 4))
+        for g in acyclic(corpus.tiny3x3_fixed()):
             out.append(_case(g, "LALR", 4))
     tw = _case(corpus.shape("ambig-concat"), "LALR", 3)
     tw["name"] = "twin:" + tw["name"]
